@@ -1,23 +1,23 @@
 package verifsim
 
 import (
-	"errors"
-	"crypto/sha256"
-	"encoding/binary"
-	"sync"
 	"context"
 	crand "crypto/rand"
+	"crypto/sha256"
+	"encoding/binary"
 	"encoding/json"
+	"errors"
 	"fmt"
 	"io"
 	"net"
 	"net/http"
 	"sort"
 	"strings"
+	"sync"
 	"time"
 
-	"github.com/bitcoin-sv/block-headers-service/repository"
 	"github.com/bitcoin-sv/block-headers-service/domains"
+	"github.com/bitcoin-sv/block-headers-service/repository"
 	"github.com/bitcoin-sv/block-headers-service/transports/websocket"
 	"github.com/centrifugal/centrifuge-go"
 )
@@ -44,10 +44,10 @@ func (s *seededReader) Read(b []byte) (int, error) {
 // (1 byte: choice of the sync peer; 8 bytes: ping and version nonces) therefore do not perturb each other when
 // their goroutines run at the same simulated instant.
 type instantReader struct {
-	mu   sync.Mutex
-	seed uint64
-	at   int64
-	cnt  map[int]uint32
+	mu    sync.Mutex
+	seed  uint64
+	at    int64
+	cnt   map[int]uint32
 	short map[int]uint32
 }
 
@@ -112,18 +112,18 @@ func (f *failingTokens) GetTokenByValue(t string) (*domains.Token, error) {
 }
 
 type authSim struct {
-	r        *Run
-	w        *World
-	admin    string
-	live     []string
-	revoked  []string
-	ws       websocket.Server
-	srv      *http.Server
-	lis      *simListener
-	failTok  bool
+	r                         *Run
+	w                         *World
+	admin                     string
+	live                      []string
+	revoked                   []string
+	ws                        websocket.Server
+	srv                       *http.Server
+	lis                       *simListener
+	failTok                   bool
 	sqlFaults, failNextCommit bool
-	useAuth  bool
-	wsChecks int
+	useAuth                   bool
+	wsChecks                  int
 }
 
 func authsimExec(r *Run) {
